@@ -61,6 +61,10 @@ CLAIMED = {
   text="Deductive proof, per handler (headers 5, tips 2, merkleroots 2, webhook 3, access 3, network 2) and for ErrorResponse/AbortWithErrorResponse/mapAndLog, over the ghost effect log RESP of gin.Context: a fresh request is answered by exactly one JSON document whose status is 200, or 4xx with a ResponseError{code,message} body, or 5xx only when storage failed; no handler panics on any parameter, query or body value; the header store is not modified (HS outside every handler's frame). Error classes of the service methods are port contracts (okErr).",
   note="Assumed: gin Context method semantics (read from gin v1.10.0: Bind* writes 400 and aborts on error, JSON writes status+body), strconv/json, the service ports' error classes (proved for the token service; header/merkleroot/webhook services' error classes are assumed here and partly proved under C04/C08/C12); the status endpoint (empty 200) is outside the claim; gin recovery middleware is not modelled.",
   design="4 C16"),
+ "C17": dict(
+  text="Deductive proof of the import side over ghost models of the file (CSV), of the rows computed (IMP) and of the rows handed to the database (INS): parseRecordToBlockHeadersSource refuses a row unless it has five columns with numerals in range and parsable hashes and otherwise yields exactly the parsed fields; calculateFields / prepareRecord derive hash = hashOf(fields, previous row's hash), height = row index, work = spec_work(bits), cumulative work = previous + work, state LONGEST_CHAIN; insertHeaders (loop invariant) hands exactly these rows, in order, to one CreateMultiple transaction and carries previous hash and cumulative work across the 500-row batch boundary; database.importHeaders never touches a database that already holds headers and leaves an empty table behind when the import or its validation fails (defect found and fixed). The export (SQL, strftime, CSV, gzip), the batch loop of sqLiteAdapter.importHeaders, validateDbConsistency and the round trip as a whole are checked by the bounded stand-in importlab on real SQLite files.",
+  note="Bounded (importlab): chains of 1, 2, 3, 7, 501 (thorough: 1003) headers with stale siblings and an orphan, extreme versions/nonces/timestamps; all single-field corruptions, missing/extra column, dropped row, wrong checkpoint on a 4-row export, each with a second start; genesis-only target. Assumed: strconv/time/csv.Reader/errors.Is contracts, (*big.Int).SetString(\"\") leaves 0, CreateMultiple is one all-or-nothing transaction, DELETE FROM headers empties the table (removeRefusedImport), Count/Height SQL; a hash string accepted by NewHashFromStr that is not 64 hex digits (e.g. a shortened merkle root) is accepted by the import - noted, not claimed.",
+  design="4 C17"),
  "C20": dict(
   text="Deductive proof that DbConfig.Validate / AppConfig.Validate accept a configuration exactly when it selects a supported engine (sqlite with a non-empty path, or postgres with host, port, user and database name) and, if a prepared database is requested, names an existing file (ghost FS.exists behind os.Stat), and that GetDefaultAppConfig returns all eight sections non-nil with a valid default database section; plus structural obligations (types and SSA, no solver) for the precedence mechanism: every field on the way to each of the 34 leaf keys of AppConfig carries a plain lower-case mapstructure name without options (omitempty/squash/'-' would drop a zero default from the registered defaults and the key would stop honouring its BHS_ variable), key names are unique per section, SetDefaults registers mapstructure.Decode(GetDefaultAppConfig()) key by key through viper.SetDefault and then calls envConfig, envConfig sets prefix bhs, replaces '.' by '_' and calls AutomaticEnv, and Load reads the selected file before viper.Unmarshal.",
   note="Assumed, not proved: viper's resolution order (explicit Set > env > config file > default) and mapstructure's decoding - library behaviour behind reflection, outside the verified subset; that the registered defaults equal the documented ones (config.example.yaml differs from defaults.go for logging.origin and logging.instance_name - documentation, not checked); os.Stat. The structural obligations are syntactic facts about the type and the SSA, enumerated from the code on every run (new keys are included).",
